@@ -168,6 +168,11 @@ class Sweep(Algorithm):
         data['init_env_data'] = self.env.get_initialization_data()
         if not sequential_simulations:
             data['sweeps'] = self.sweeps
+            # state of the mixer, such that `resume_run` continues with the current amplitude (or without mixer)
+            if self.mixer is None:
+                data['mixer'] = None
+            else:
+                data['mixer'] = {'amplitude': self.mixer.amplitude, 'sweep_activated': self.mixer.sweep_activated}
             if len(self.ortho_to_envs) > 0:
                 if self.psi.bc == 'finite':
                     data['orthogonal_to'] = [e.ket for e in self.ortho_to_envs]
@@ -793,6 +798,15 @@ class IterativeSweeps(Sweep):
 
     """
 
+    _resuming_run = False  # whether :meth:`run` was called by :meth:`resume_run`
+
+    def resume_run(self):
+        self._resuming_run = True
+        try:
+            return super().resume_run()
+        finally:
+            self._resuming_run = False
+
     def run(self):
         self.shelve = False
         result = self.pre_run_initialize()
@@ -827,6 +841,14 @@ class IterativeSweeps(Sweep):
 
         """
         self.mixer_activate()
+        if self._resuming_run and 'mixer' in self.resume_data and self.mixer is not None:
+            # continue with the mixer as it was at the checkpoint instead of the freshly activated one
+            mixer_state = self.resume_data['mixer']
+            if mixer_state is None:
+                self.mixer_deactivate()
+            else:
+                self.mixer.amplitude = mixer_state['amplitude']
+                self.mixer.sweep_activated = mixer_state['sweep_activated']
         return None
 
     def run_iteration(self):
